@@ -97,6 +97,11 @@ func (l *Pll) Do(offset time.Duration, weight float64) {
 		}
 		p = timemath.Inv(offset).Seconds() * a
 		d = math.Ceil(dt)
+		// largest whole number of seconds representable as a time.Duration
+		const dMax = float64(math.MaxInt64 / int64(time.Second))
+		if d > dMax {
+			d = dMax
+		}
 		l.i += p * b
 		if p > d*500e-6 {
 			p = d * 500e-6
